@@ -888,6 +888,54 @@ func (s *MarkSelect) Process(ctx context.Context, man gdbi.Manager, in gdbi.InPi
 
 ////////////////////////////////////////////////////////////////////////////////
 
+// extensionLoader is the first processor of a pipeline that extends the
+// output of another pipeline (a stored job being resumed). The producing
+// pipeline skipped loading the data of elements none of its own statements
+// read; the statements of the extension may read any of it, so the current
+// element and the marked elements that are not loaded are completed here.
+type extensionLoader struct {
+	db        gdbi.GraphInterface
+	dataType  gdbi.DataType
+	markTypes map[string]gdbi.DataType
+}
+
+func (l *extensionLoader) load(e *gdbi.DataElement, t gdbi.DataType) {
+	if e == nil || e.Loaded || e.ID == "" {
+		return
+	}
+	var full *gdbi.DataElement
+	switch t {
+	case gdbi.VertexData:
+		full = l.db.GetVertex(e.ID, true)
+	case gdbi.EdgeData:
+		full = l.db.GetEdge(e.ID, true)
+	}
+	if full != nil {
+		*e = *full
+	}
+}
+
+// Process runs extensionLoader
+func (l *extensionLoader) Process(ctx context.Context, man gdbi.Manager, in gdbi.InPipe, out gdbi.OutPipe) context.Context {
+	go func() {
+		defer close(out)
+		for t := range in {
+			if t.IsSignal() {
+				out <- t
+				continue
+			}
+			l.load(t.GetCurrent(), l.dataType)
+			for _, name := range t.ListMarks() {
+				l.load(t.GetMark(name), l.markTypes[name])
+			}
+			out <- t
+		}
+	}()
+	return ctx
+}
+
+////////////////////////////////////////////////////////////////////////////////
+
 type both struct {
 	db       gdbi.GraphInterface
 	labels   []string
